@@ -51,19 +51,37 @@ class Undecided(Exception):
 def run_verus_unit(unit_name, pid, tier, out):
     """verify one Verus unit; returns dict with obligations/failed lists restricted to pid."""
     tpath = os.path.join(ROOT, 'units', unit_name, 'template.rs')
-    u = T.Unit(tpath, repo=REPO)
-    try:
-        text = u.build()
-    except (ScanError, T.TemplateError) as e:
-        raise Undecided('%s: extraction/splice failed: %s' % (unit_name, e))
     bdir = os.path.join(BUILD, unit_name if REPO == '/repo' else unit_name + '_' + hashlib.sha1(REPO.encode()).hexdigest()[:8])
     os.makedirs(bdir, exist_ok=True)
     gpath = os.path.join(bdir, unit_name + '.rs')
-    open(gpath, 'w').write(text)
-    res = V.run(gpath)
-    if res['timeout']:
-        raise Undecided('%s: verus timed out' % unit_name)
-    an = V.analyse(res, u)
+    strip = set()
+    for attempt in range(3):
+        u = T.Unit(tpath, repo=REPO, strip_hints=strip)
+        try:
+            text = u.build()
+        except (ScanError, T.TemplateError) as e:
+            raise Undecided('%s: extraction/splice failed: %s' % (unit_name, e))
+        open(gpath, 'w').write(text)
+        res = V.run(gpath)
+        if res['timeout']:
+            raise Undecided('%s: verus timed out' % unit_name)
+        an = V.analyse(res, u)
+        if not an['tool_errors']:
+            break
+        # The generated text does not compile.  If every error lies inside an extracted function, the
+        # function's shape changed under the spliced proof hints: drop the hints (never the contract) of
+        # those functions and verify again.  Contracts alone decide; hints only ever help a proof.
+        fns = set()
+        for e in an['tool_errors']:
+            tag = u.gen.tags[e['line'] - 1] if e.get('line') and e['line'] - 1 < len(u.gen.tags) else None
+            if tag and tag.get('fn') and not tag.get('tmpl'):
+                fns.add(tag['fn'])
+            else:
+                fns = None
+                break
+        if not fns or fns <= strip:
+            break
+        strip |= fns
     if an['undecided']:
         res2 = V.run(gpath, rlimit=120, extra=['--smt-option', 'smt.random_seed=%d' % (int(os.environ.get('VERIF_SEED', '0')) % 1000 + 1)])
         an2 = V.analyse(res2, u)
@@ -127,8 +145,11 @@ def run_verus_unit(unit_name, pid, tier, out):
         st = fnstat.get(o['fn']) or {}
         per.append(dict(id=o['id'], backend='verus/z3', result='failed' if o['id'] in failed_ids else 'discharged',
                         fn_time_ms=st.get('time'), fn_rlimit=st.get('rlimit')))
+    for f in relevant_failed:
+        if f['fn'] in strip or any(l.startswith(f['fn'] + ':') for l in u.lost_anchors):
+            f['hints_dropped'] = True
     return dict(unit=u, gen_path=gpath, res=res, failed=relevant_failed, per_obligation=per, canary=canary,
-                unstable=an.get('unstable', []), verus_errors=nerr)
+                unstable=an.get('unstable', []), verus_errors=nerr, hints_dropped=sorted(strip), lost_anchors=list(u.lost_anchors))
 
 
 def write_replay(pid, failure, backend, extra=None):
@@ -137,6 +158,10 @@ def write_replay(pid, failure, backend, extra=None):
     path = os.path.join(RPDIR, '%s_%s.json' % (pid, h))
     doc = dict(property=pid, obligation=failure['id'], backend=backend, verifier_message=failure.get('message'),
                verifier_output=failure.get('rendered'), detail=failure.get('detail'), counterexample=None, replay=None)
+    if failure.get('hints_dropped'):
+        doc['note'] = ('the shape of this function changed so that spliced proof hints no longer applied; they were dropped and the '
+                       'contract was checked without them: the failed obligation was discharged on the unchanged tree and is no longer, '
+                       'which may be a proof gap rather than a defect')
     if extra:
         doc.update(extra)
     json.dump(doc, open(path, 'w'), indent=1)
@@ -177,7 +202,7 @@ def main(argv=None):
                 trusted += ['%s: %s' % (us['unit'], t) for t in u.trusted]
                 functions += [dict(f, unit=us['unit']) for f in u.functions if pid in f['props']]
                 extraction_log += [dict(e, unit=us['unit']) for e in u.log]
-                canaries[us['unit']] = r['canary']
+                canaries[us['unit']] = dict(r['canary'], hints_dropped=r['hints_dropped'], lost_anchors=r['lost_anchors'])
                 cmds.append(r['res']['cmd'])
                 solver_ms += (r['res'].get('times') or {}).get('smt', {}).get('total', 0)
             elif us['backend'] == 'kani':
